@@ -156,7 +156,10 @@ def run(ctx):
                    "options varied) on fresh and reused reader objects incl. re-reads of the same document, API builds, "
                    "writes by the 8 writers, edits (add_style, rules in place, caption time/style/layout, node "
                    "append/content, caption removal). Non-trivial = a history that reuses a reader object, or that has "
-                   ">= 2 sets and an edit; distinct histories counted.")
+                   ">= 2 sets and an edit; distinct histories counted. Plus (wave 7) sequences of 2-3 SCC documents on ONE "
+                   "SCCReader object (pop-on / roll-up / paint-on / mixed, refused documents, offsets, re-reads, 'dirty pairs': "
+                   "document 1 ends in a non-initial decoder state that the start of document 2 would notice), each read "
+                   "compared with a new reader object and with the decoder-state model (request 1002).")
     res["samples"] = [C.describe_history(h) for h in histories[len(CORPUS):len(CORPUS) + 5]]
     res["clauses"] = {
         "theorem": ["SCC READER REUSE (wave 7, over the decoder model): a read() of an SCCReader object in ANY state returns what "
